@@ -526,7 +526,7 @@ def _trace_spot_cases(ctx, nl):
         try:
             sd = SpotDiagram(o, fields=F, wavelengths=[w], num_rings=1, distribution='hexapolar')
             # the primary index of the lens must address the single listed wavelength: use the model with index 0
-            cen = [(np.mean(fd[0][0]), np.mean(fd[0][1])) for fd in sd.data]
+            cens, geos, rmss = sd.centroid(), sd.geometric_spot_radius(), sd.rms_spot_radius()
         except Exception:   # noqa
             continue
         for fi, f in enumerate(F):
@@ -535,10 +535,8 @@ def _trace_spot_cases(ctx, nl):
             sg = o.surface_group
             launch = [[float(c[0, j]) for c in (sg.x, sg.y, sg.z, sg.L, sg.M, sg.N, sg.intensity, sg.opd)] for j in range(len(Px))]
             defs.append(f'Definition rays{fi} := [' + ';\n  '.join(tracecorr.coq_ray(rec, w) for rec in launch) + '].')
-            x, y = np.array(sd.data[fi][0][0]), np.array(sd.data[fi][0][1])
-            cx, cy = np.mean(x), np.mean(y)
-            r2 = (x - cx) ** 2 + (y - cy) ** 2
-            exp = [cx, cy, np.sqrt(np.max(r2)), np.sqrt(np.mean(r2))]
+            # expectations are the implementation's own answers (failed rays ignored, as the model does)
+            exp = [cens[fi][0], cens[fi][1], geos[fi][0], rmss[fi][0]]
             checks.append(f'match spot_of lens rays{fi} with Some s => match centroid1 0%Z [s] with Some c => '
                           f'let sc := center1 c s in close_list {TOL} [fst c; snd c; geo1 sc; rms1 sc] {_fl(exp)} | None => false end | None => false end')
             labs.append({'lens': k, 'check': 'trace+spot', 'field': list(f), 'spec': spec})
